@@ -58,6 +58,10 @@ func parseMutant(path string) (*mutant, error) {
 // runSelftest: every mutant of the property must make at least one obligation fail (the expected
 // one when named). Exit 0 iff all mutants are killed.
 func runSelftest(args []string) int {
+	if os.Getenv("GOVC_NO_EXTEND") == "" {
+		// almost every mutant run has a genuinely failing obligation: do not wait three times longer for it
+		os.Setenv("GOVC_NO_EXTEND", "1")
+	}
 	if len(args) < 1 {
 		fmt.Fprintln(os.Stderr, "usage: govc selftest <ID> [mutant-name-substring]")
 		return 2
